@@ -46,11 +46,22 @@ def pretty(step):
     return o
 
 
-def sigs_of(rec):
+LOST = {"post": "post-lost", "mkcat": "create-lost", "mkbundle": "create-lost", "delart": "delete-lost", "delitem": "delete-lost",
+        "reload": "reload-lost"}
+
+
+def sigs_of(rec, script=None):
     """One (signature, summary) per failing kind of a VIOL record printed by Trace_News."""
     det = rec.get("detail", {})
     out = []
     for f in sorted(det.get("fails", [])):
+        if f == "lost":
+            before = (script or {}).get("steps", [])[:max((rec.get("k") or 1) - 1, 0)]
+            after_reload = any(x.get("op") == "reload" for x in before)
+            how = "panic" if "panicked" in det.get("how", "") else "unanswered"
+            sig = "C18/%s/%s%s" % (LOST.get(rec.get("op"), "step-lost"), how, "/after-reload" if after_reload else "")
+            out.append((sig, {"kind": f, "detail": det}))
+            continue
         if f == "list":
             d = det.get("list", {})
             unparseable = [x for x in d.get("obs", []) if not (x.get("ok") and x.get("exact"))]
@@ -149,7 +160,7 @@ def run(ctx, prop):
                 ctx.sample({"user": show(used[i % len(used)]["world"]["user"]), "script": [pretty(x) for x in used[i % len(used)]["steps"][:10]]})
         for v in viol:
             run_id = v.get("run")
-            for sig, what in sigs_of(v):
+            for sig, what in sigs_of(v, used[run_id - 1] if run_id and run_id <= len(used) else None):
                 nviol += 1
                 what.update({"op": v.get("op"), "line": v.get("line"), "step": v.get("step")})
                 ctx.add_violation(sig, what, replay={"driver": "vh-news", "trace_module": "Trace_News", "batch": b,
@@ -192,7 +203,7 @@ def replay(ctx, prop, rp):
     ctx.cov["traces_validated_against_impl"] += 1
     ctx.sample({"script": [pretty(x) for x in sc["steps"][:10]]})
     for v in viol:
-        for sig, what in sigs_of(v):
+        for sig, what in sigs_of(v, sc):
             what.update({"op": v.get("op"), "line": v.get("line"), "step": v.get("step")})
             ctx.add_violation(sig, what, replay={"driver": "vh-news", "trace_module": "Trace_News", "failing_step": v.get("k"), "script": sc})
     for d in drift:
